@@ -45,7 +45,7 @@ def captured():
         mod = importlib.import_module(type(lang).__module__)
         calls = []
         saved = mod.get_headers
-        mod.get_headers = lambda tokens, expression, followed_by=None, _c=calls: (_c.append((expression, followed_by)), [])[1]
+        mod.get_headers = lambda tokens, expression, followed_by=None, *a, _c=calls, **kw: (_c.append((expression, followed_by)), [])[1]   # further arguments a change may add are ignored here; the correspondence shows whether they matter
         try:
             lang.extract_headers([])
         finally:
